@@ -115,6 +115,7 @@ def main(tier, seed, replay=None):
             run.tie("n2 build", out_[-1000:])
         else:
             taskleg.showincludes_leg(run, n2)
+            taskleg.showincludes_bytes_leg(run, n2)
             taskleg.depfile_leg(run, n2)
             run.coverage["black_box_depfile_projects"] = taskleg.depfile_random_leg(run, n2, random.Random(seed + 78), 12 if tier == "quick" else 120)
             run.coverage["black_box_showincludes_plans"] = taskleg.showincludes_random_leg(run, n2, random.Random(seed + 77), 6 if tier == "quick" else 40)
